@@ -215,6 +215,8 @@ pub fn run(cfg: &Cfg) -> Outcome {
             let mut opts = DsOpts::default();
             opts.explicit_marks = true;
             opts.zero_frags = rng.chance(1, 4);
+            // every other case may carry (7FE0,0010), native or encapsulated, inside sequence items
+            opts.nested_pixel = idx % 2 == 1;
             let ds = gen_dataset(rng, &opts);
             let obj = to_object(&ds);
             let replay = json!({"seed": cfg.seed, "stream": 1, "case": idx, "dataset": ds_json(&ds)});
